@@ -378,6 +378,85 @@ def d2d_policy_aware_insertion(chk: Check) -> None:
                      "no policy-aware merger is given the target")
 
 
+def d7_policy_for_incoming_node(chk: Check) -> None:
+    """The per-path rules of a merge are written against, and prepared for,
+    the *incoming* (right-hand) document: MergerConfig looks a node up by
+    identity in the table built from that document.  A NodeCoords wrapped
+    around a node of the receiving document is never in the table, so the
+    lookup silently falls back to the global default and the rule the user
+    wrote for that path is ignored."""
+    from sa.coords import loop_binding
+    from sa.guards import root_name
+    prog = chk.prog
+    chk.rule("C11-D7", "every NodeCoords built in merger.py for a policy "
+             "lookup wraps a node of the incoming (right-hand) document",
+             floor=6)
+    for fi in prog.funcs_in("yamlpath/merger/merger.py"):
+        params = fi.params()
+        for c in walk_local(fi.node):
+            if not (isinstance(c, ast.Call) and src(c.func) == "NodeCoords"
+                    and c.args):
+                continue
+            rhs_names = {p for p in params if p.startswith("rhs")}
+            if not rhs_names:
+                continue
+            node = c.args[0]
+            root = root_name(node)
+            seen = set()
+            while root is not None and root not in rhs_names and \
+                    root not in seen:
+                seen.add(root)
+                lb = loop_binding(root, c)
+                if lb is None:
+                    break
+                root = root_name(lb[1])
+            text = "{}: NodeCoords({}, ...)".format(fi.short, src(node))
+            if root in rhs_names:
+                chk.ok("C11-D7", fi, c, text, "a node of `{}`".format(root))
+            else:
+                chk.fail("C11-D7", fi, c, text,
+                         "the coordinates handed to the policy lookup wrap "
+                         "`{}`, which is not part of the incoming document: "
+                         "the per-path rule for this node is never found and "
+                         "the global default decides".format(src(node)))
+
+
+def d9_every_match_is_a_target(chk: Check) -> None:
+    """Every node the merge-point query yields is merged into.  The
+    gathering loop must not drop a match because an *equal* node was
+    gathered before (`node in [..]` compares by value: two `[prod]` lists
+    under different hosts are different targets)."""
+    prog = chk.prog
+    chk.rule("C11-D9", "_get_merge_target_nodes keeps every node the "
+             "merge-point query yields (no value comparison decides "
+             "whether a match is kept)", floor=1)
+    fi = prog.func("Merger._get_merge_target_nodes")
+    apps = [c for c in walk_local(fi.node) if isinstance(c, ast.Call) and
+            isinstance(c.func, ast.Attribute) and c.func.attr == "append"
+            and any(isinstance(a, ast.For) and
+                    src(a.iter.func).endswith(".get_nodes")  # type: ignore
+                    for a in ancestors(c)
+                    if isinstance(a, ast.For) and
+                    isinstance(a.iter, ast.Call))]
+    if not apps:
+        raise AnalysisError("gathering append of _get_merge_target_nodes "
+                            "not found")
+    for c in apps:
+        conds = [f for f in facts_at(c) if f.kind == "cond"]
+        byvalue = [f for f in conds if any(
+            isinstance(x, ast.Compare) and any(
+                isinstance(o, (ast.In, ast.NotIn, ast.Eq, ast.NotEq))
+                for o in x.ops) for x in ast.walk(f.expr))]
+        text = "nodes.append({})".format(src(c.args[0]) if c.args else "")
+        if byvalue:
+            chk.fail("C11-D9", fi, c, text,
+                     "a match is kept only when {}: a comparison by value, "
+                     "so a second target with equal content is silently "
+                     "not merged into".format(repr(byvalue[0])[:80]))
+        else:
+            chk.ok("C11-D9", fi, c, text, "every match is kept")
+
+
 def d4_no_partial(chk: Check) -> None:
     prog = chk.prog
     chk.rule("C11-D4", "yaml-merge writes its output only with a zero exit "
@@ -406,4 +485,9 @@ def run(chk: Check) -> None:
     d3b_strip(chk)
     d5_empty_is_not_absent(chk)
     d2d_policy_aware_insertion(chk)
+    d7_policy_for_incoming_node(chk)
+    d9_every_match_is_a_target(chk)
+    from rules.c05 import d2c_per_rule_handler
+    d2c_per_rule_handler(chk, "C11-D8",
+                         ("MergerConfig._prepare_user_rules",))
     d4_no_partial(chk)
